@@ -4,7 +4,8 @@
    or an observation that breaks the property. *)
 From SC Require Import Base.Prelude Timeline.Timestamp Timeline.Segment Timeline.Mode Timeline.Own Timeline.Wrap
   Timeline.C18Judge Timeline.TimestampProofs Timeline.SegmentProofs Timeline.ShiftSumProofs Timeline.ModeProofs
-  Timeline.OwnProofs Timeline.WrapProofs Timeline.MoreProofs.
+  Timeline.OwnProofs Timeline.WrapProofs Timeline.MoreProofs Timeline.GoTimeMode Timeline.GoTimeModeProofs.
+From SC Require Import Cmp.Cmp Cmp.Tolerance Cmp.GoTime.
 
 Local Arguments Z.add : simpl never.
 Local Arguments Z.sub : simpl never.
@@ -123,9 +124,9 @@ Proof.
   rewrite (heap_ext_kept h0 h E). reflexivity.
 Qed.
 
-Theorem judge_sound c : C18_guard c = true -> agrees c = true -> C18_ok c = true.
+Theorem judge_sound0 c : C18_guard0 c = true -> agrees0 c = true -> C18_ok0 c = true.
 Proof.
-  destruct c; unfold C18_guard, agrees, C18_ok; intros G A.
+  destruct c; unfold C18_guard0, agrees0, C18_ok0; intros G A; try discriminate G.
   - (* KCompare *)
     apply andb_prop in G. destruct G as [Ga Gb]. apply Z.eqb_eq in A. subst obs.
     rewrite compare_ascending_is_ref by assumption. apply Z.eqb_refl.
@@ -255,6 +256,46 @@ Proof.
   - (* KOwnModeSum *)
     destruct (margs_heap args) as [h0 ms]. pose proof (mode_sum_never_writes_args no_growth ms h0) as E.
     destruct (mode_sum_own no_growth ms h0) as [r h]. exact (own_sound _ _ _ _ E A).
+Qed.
+
+Lemma ts_eqb_refl a : ts_eqb a a = true.
+Proof. unfold ts_eqb. rewrite !Z.eqb_refl. reflexivity. Qed.
+
+Lemma and4 (a b c d : bool) : a && b && c && d = true -> a = true /\ b = true /\ c = true /\ d = true.
+Proof. intros H. apply andb_prop in H. destruct H as [H Hd]. apply andb_prop in H. destruct H as [H Hc].
+  apply andb_prop in H. tauto. Qed.
+
+(* with the kinds observed through Go's time.Time: inside the band the Go-representation model is the instant
+   model (GoTimeModeProofs), so the same oracles apply *)
+Theorem judge_sound c : C18_guard c = true -> agrees c = true -> C18_ok c = true.
+Proof.
+  destruct c; try exact (judge_sound0 _); unfold C18_guard, agrees, C18_ok; intros G A.
+  - (* KGoCompare *)
+    destruct obs as [[[c s] bf] af]. apply and4 in G. destruct G as (Va & Vb & Ba & Bb).
+    apply and4 in A. destruct A as (Ac & As & Abf & Aaf).
+    apply Z.eqb_eq in Ac. apply Z.eqb_eq in As. apply Bool.eqb_prop in Abf. apply Bool.eqb_prop in Aaf.
+    pose proof (ts_as_time_wf a) as Wa. pose proof (ts_as_time_wf b) as Wb.
+    assert (Ec : c = compare_ref a b).
+    { rewrite Ac. change (go_compare (ts_as_time a) (ts_as_time b)) with (compare_via_as_time a b).
+      rewrite (proj2 (compare_via_as_time_exact a b Va Vb)) by (rewrite Ba, Bb; reflexivity).
+      apply compare_ascending_is_ref; assumption. }
+    rewrite (go_sub_tval _ _ Wa Wb) in As. rewrite (go_before_tval _ _ Wa Wb) in Abf.
+    rewrite (go_after_tval _ _ Wa Wb) in Aaf.
+    rewrite (tval_as_time_in_band a Va Ba), (tval_as_time_in_band b Vb Bb) in *.
+    subst c s bf af. rewrite Ec, !Z.eqb_refl, !Bool.eqb_reflx. reflexivity.
+  - (* KGoNew *)
+    apply and4 in G. destruct G as (Va & Ba & Hd & SB). apply ts_eqb_eq in A. subst obs.
+    rewrite (go_add_in_band a d Va Ba Hd SB). apply ts_eqb_refl.
+  - (* KGoMode *)
+    destruct obs as [[[ac mg] mx] ct]. apply andb_prop in G. destruct G as [G G0]. apply andb_prop in G.
+    destruct G as [Ht B]. destruct (mode_reads_g_in_band t m Ht B) as (E1 & E2 & E3).
+    rewrite E1, E2, E3, (mode_cut_g_in_band t m Ht B) in A. apply and4 in A. destruct A as (A1 & A2 & A3 & A4).
+    rewrite (judge_sound0 (KModeActiveAt t m ac) G0 A1), (judge_sound0 (KModeMagAt t m mg) G0 A2),
+      (judge_sound0 (KModeMaxAfter t m mx) G0 A3), (judge_sound0 (KModeCut t m ct) G0 A4). reflexivity.
+  - (* KGoModeShift *)
+    apply and4 in G. destruct G as (Hd & B & SB & G0). rewrite (mode_shift_g_in_band d m Hd B SB) in A.
+    exact (judge_sound0 (KModeShift d m obs) G0 A).
+  - (* KGoModeSum *) reflexivity.
 Qed.
 
 (* consequently the check's verdict on the model's own output is always 0 *)
